@@ -361,6 +361,9 @@ func TestVerif_C11_loop(t *testing.T) {
 		if fam != "" {
 			pols = "" // the family lane resolves them
 		}
+		for _, b := range c11DegBuckets(ps) {
+			s.Count(b)
+		}
 		for _, p := range ps {
 			s.Count("pol:" + p.kind)
 		}
